@@ -140,6 +140,10 @@ func newHTTPWorld(profiling bool) *httpWorld {
 		time.Sleep(time.Millisecond)
 	}
 	noLog := func(next http.Handler) http.Handler { return next }
+	if !profiling {
+		// another server of the same process had profiling enabled (package-level state must not carry it over)
+		_ = server.NewServer(r, memOutputStore{}, noLog, jwtauth.New("HS256", []byte(jwtSecret), nil), true)
+	}
 	hw.h = server.NewServer(r, memOutputStore{}, noLog, jwtauth.New("HS256", []byte(jwtSecret), nil), profiling)
 	hw.routes = server.VerifRoutes(hw.h)
 	return hw
@@ -396,6 +400,11 @@ func runHTTPX(profiling bool, history string) httpxResult {
 			variants = append(variants, strings.TrimSuffix(path, "/"))
 		} else {
 			variants = append(variants, path+"/")
+		}
+		// paths that are not in canonical form: dot segments through the one prefix that is public when profiling is on,
+		// doubled slashes - whatever the router makes of them, no 2xx, no data, no effect without a valid token
+		for _, pre := range []string{"/debug/..", "/debug/x/../..", "/debug/pprof/../..", "/.", "/"} {
+			variants = append(variants, pre+path)
 		}
 		for _, vp := range variants {
 			for _, m := range allMethods {
